@@ -224,18 +224,81 @@ def check_dominates(prog, rep):
     rep.ok("R1-dominates", construct, "all %d order types (25 orderings of cv1, cv2, 0 x 8 relation sets) agree with feasibility-first Pareto dominance" % cells)
 
 
-def _sol_key(e):
-    """(solution key, kind) of an argument such as lead_obj / ndom_cv[k]"""
-    idx = ""
-    if isinstance(e, ast.Subscript):
-        idx = "[" + dump(e.slice) + "]"
-        e = e.value
-    if not isinstance(e, ast.Name):
+class Pairing:
+    """
+    which (objective vector, constraint violation) expressions belong to ONE solution, found by def-use inside the host function (no naming scheme):
+      - an objective variable is read from D['F'], a violation variable is a sum of variables read from D['G'] / D['H'] of the SAME evaluation dictionary D;
+      - a joint hand-over in one block (o2 = o1 ; c2 = c1 with (o1, c1) paired) pairs (o2, c2);
+      - two lists that receive a paired (o, c) in one block are parallel: Lo[k] is paired with Lc[k] for the same index text.
+    """
+
+    def __init__(self, f):
+        self.f = f
+        self.assigns = [n for n in walk_no_nested(f.node) if isinstance(n, ast.Assign) and len(n.targets) == 1 and isinstance(n.targets[0], ast.Name)]
+        self.src = {}        # name -> set of (dict, key) it is read from
+        for a in self.assigns:
+            r = _dict_read(a.value)
+            if r:
+                self.src.setdefault(a.targets[0].id, set()).add(r)
+        self.obj = {n: {d for d, k in rs if k == "F"} for n, rs in self.src.items() if any(k == "F" for d, k in rs)}
+        self.cvparts = {}    # cv name -> set of (dict, key) of its summands
+        for a in self.assigns:
+            nm = a.targets[0].id
+            if nm in self.src or isinstance(a.value, ast.Name):
+                continue
+            parts = set()
+            for x in ast.walk(a.value):
+                if isinstance(x, ast.Name) and x.id in self.src and x.id not in self.obj:
+                    parts |= self.src[x.id]
+            if parts and all(k in ("G", "H") for d, k in parts):
+                self.cvparts.setdefault(nm, set()).update(parts)
+        self.pairs = set()
+        for o, ds in self.obj.items():
+            for c, ps in self.cvparts.items():
+                if ds == {d for d, k in ps} and len(ds) == 1:
+                    self.pairs.add((o, c))
+        # hand-overs
+        changed = True
+        while changed:
+            changed = False
+            for blk in _blocks(f.node):
+                cp = [(s.targets[0].id, s.value.id) for s in blk if isinstance(s, ast.Assign) and len(s.targets) == 1 and isinstance(s.targets[0], ast.Name)
+                      and isinstance(s.value, ast.Name)]
+                for (t1, v1) in cp:
+                    for (t2, v2) in cp:
+                        if (v1, v2) in self.pairs and (t1, t2) not in self.pairs:
+                            self.pairs.add((t1, t2))
+                            changed = True
+        # parallel lists
+        self.lists = set()
+        for blk in _blocks(f.node):
+            adds = []
+            for s in blk:
+                if isinstance(s, ast.Expr) and isinstance(s.value, ast.Call) and isinstance(s.value.func, ast.Attribute) and s.value.func.attr in ("append", "insert") \
+                        and isinstance(s.value.func.value, ast.Name) and s.value.args and isinstance(s.value.args[-1], ast.Name):
+                    adds.append((s.value.func.value.id, s.value.args[-1].id))
+            for (l1, v1) in adds:
+                for (l2, v2) in adds:
+                    if (v1, v2) in self.pairs:
+                        self.lists.add((l1, l2))
+
+    def paired(self, a, b):
+        if isinstance(a, ast.Name) and isinstance(b, ast.Name):
+            return (a.id, b.id) in self.pairs
+        if isinstance(a, ast.Subscript) and isinstance(b, ast.Subscript) and isinstance(a.value, ast.Name) and isinstance(b.value, ast.Name):
+            return (a.value.id, b.value.id) in self.lists and dump(a.slice) == dump(b.slice)
+        return False
+
+    def kind(self, e):
+        """'obj' | 'cv' | None for an argument expression"""
+        base = e.value if isinstance(e, ast.Subscript) else e
+        if not isinstance(base, ast.Name):
+            return None
+        if any(base.id == o for o, c in self.pairs) or any(base.id == lo for lo, lc in self.lists):
+            return "obj"
+        if any(base.id == c for o, c in self.pairs) or any(base.id == lc for lo, lc in self.lists):
+            return "cv"
         return None
-    for suf, kind in (("_obj", "obj"), ("_cv", "cv")):
-        if e.id.endswith(suf):
-            return (e.id[:-len(suf)] + idx, kind)
-    return None
 
 
 def check_dominates_calls(prog, rep):
@@ -249,28 +312,28 @@ def check_dominates_calls(prog, rep):
             continue
         hosts.append(f)
         rep.saw(f)
+        pr = Pairing(f)
         for c in calls:
             n += 1
             construct = "%s: %s" % (f.qualname, dump(c)[:90])
             if len(c.args) != 4 or c.keywords:
                 rep.unrec("R1-callsites", construct, "call is not four positional arguments")
                 continue
-            ks = [_sol_key(a) for a in c.args]
-            if any(k is None for k in ks):
-                rep.unrec("R1-callsites", construct, "arguments do not follow the <solution>_obj / <solution>_cv naming scheme")
+            kinds = [pr.kind(a) for a in c.args]
+            if any(k is None for k in kinds):
+                rep.unrec("R1-callsites", construct, "an argument is neither an objective vector read from an evaluation's 'F' nor a violation summed from its 'G' / 'H'")
                 continue
-            kinds = [k[1] for k in ks]
             if kinds != ["obj", "cv", "obj", "cv"]:
                 rep.violate("R1-callsites", construct, "arguments are (%s), the predicate takes (obj1, cv1, obj2, cv2)" % ", ".join(kinds), where(f, c))
                 continue
-            if ks[0][0] != ks[1][0] or ks[2][0] != ks[3][0]:
+            if not pr.paired(c.args[0], c.args[1]) or not pr.paired(c.args[2], c.args[3]):
                 rep.violate("R1-callsites", construct, "objective vector and constraint violation of different solutions are paired: %s"
                             % ", ".join(dump(a) for a in c.args), where(f, c))
                 continue
-            if ks[0][0] == ks[2][0]:
+            if dump(c.args[0]) == dump(c.args[2]):
                 rep.violate("R1-callsites", construct, "a solution is compared with itself", where(f, c))
                 continue
-            rep.ok("R1-callsites", construct, "pairs (%s) against (%s)" % (ks[0][0], ks[2][0]))
+            rep.ok("R1-callsites", construct, "pairs (%s, %s) against (%s, %s): each objective with the violation of the same evaluation" % tuple(dump(a) for a in c.args))
         # flags updated by a dominance test: `flag[x] &= not dominates(A.., B..)` must update B's flag
         for st in walk_no_nested(f.node):
             if isinstance(st, ast.AugAssign) and isinstance(st.target, ast.Subscript):
@@ -292,10 +355,9 @@ def check_dominates_calls(prog, rep):
                                 where(f, st))
                 else:
                     rep.ok("R1-callsites", construct, "clears the flag of the dominated solution [%s]" % didx)
+        _check_eval_unpack(prog, rep, f, pr)
+        _check_archive_lockstep(prog, rep, f, pr)
     rep.floor("R1-callsites", 5)
-    for f in hosts:
-        _check_eval_unpack(prog, rep, f)
-        _check_archive_lockstep(prog, rep, f)
 
 
 def _dict_read(e):
@@ -309,53 +371,40 @@ def _dict_read(e):
     return None
 
 
-def _check_eval_unpack(prog, rep, f):
-    """<s>_obj from D['F'], <s>_cv = sum of D['G'] and D['H'] parts of the SAME evaluation dictionary D"""
-    assigns = {}
-    for st in walk_no_nested(f.node):
-        if isinstance(st, ast.Assign) and len(st.targets) == 1 and isinstance(st.targets[0], ast.Name):
-            assigns.setdefault(st.targets[0].id, []).append(st)
-    for name, sts in sorted(assigns.items()):
-        if not name.endswith("_cv"):
-            continue
-        sol = name[:-3]
-        for st in sts:
-            v = st.value
-            construct = "%s: %s" % (f.qualname, dump(st)[:90])
-            if isinstance(v, ast.Name):
-                # hand-over `lead_cv = prop_cv` must come with `lead_obj = prop_obj`
-                src = _sol_key(v)
-                if src is None or src[1] != "cv":
-                    rep.unrec("R1-callsites", construct, "constraint violation copied from %s" % dump(v))
-                    continue
-                partner = [s for s in assigns.get(sol + "_obj", []) if isinstance(s.value, ast.Name) and s.value.id == src[0] + "_obj"
-                           and _same_block(f.node, s, st)]
+def _check_eval_unpack(prog, rep, f, pr):
+    """every violation variable sums BOTH the inequality ('G') and the equality ('H') part of its evaluation; hand-overs copy objective and violation together"""
+    for c, parts in sorted(pr.cvparts.items()):
+        construct = "%s: %s" % (f.qualname, c)
+        ds = {d for d, k in parts}
+        keys = {k for d, k in parts}
+        if len(ds) != 1:
+            rep.violate("R1-callsites", construct, "the constraint violation %s sums parts of different evaluations: %s" % (c, sorted(ds)), where(f))
+        elif keys != {"G", "H"}:
+            rep.violate("R1-callsites", construct, "the constraint violation %s sums entries %s of the evaluation, not inequality 'G' and equality 'H'" % (c, sorted(keys)), where(f),
+                        "'G' + 'H'", str(sorted(keys)))
+        elif not any(cc == c for o, cc in pr.pairs):
+            rep.unrec("R1-callsites", construct, "no objective vector is read from the same evaluation as %s" % c)
+        else:
+            rep.ok("R1-callsites", construct, "violation = 'G' + 'H' of evaluation %s, whose 'F' gives the paired objective vector" % sorted(ds)[0])
+    # hand-over: a violation variable copied from another one must come with its objective in the same block
+    allcv = {c for o, c in pr.pairs}
+    allobj = {o for o, c in pr.pairs}
+    for blk in _blocks(f.node):
+        cp = [(s, s.targets[0].id, s.value.id) for s in blk if isinstance(s, ast.Assign) and len(s.targets) == 1 and isinstance(s.targets[0], ast.Name)
+              and isinstance(s.value, ast.Name)]
+        for s, t, v in cp:
+            if v in allcv:
+                partner = [1 for s2, t2, v2 in cp if (v2, v) in pr.pairs and (t2, t) in pr.pairs]
+                construct = "%s: %s" % (f.qualname, dump(s)[:60])
                 if partner:
-                    rep.ok("R1-callsites", construct, "leader hand-over copies objective and violation of %s together" % src[0])
+                    rep.ok("R1-callsites", construct, "hand-over copies objective and violation of one solution together")
                 else:
-                    rep.violate("R1-callsites", construct, "%s takes the violation of %s without its objective vector in the same block" % (sol, src[0]), where(f, st))
-                continue
-            parts = []
-            for nm in ast.walk(v):
-                if isinstance(nm, ast.Name) and nm.id in assigns and nm.id != name:
-                    for d in assigns[nm.id]:
-                        r = _dict_read(d.value)
-                        if r:
-                            parts.append(r)
-            objs = [r for s in assigns.get(sol + "_obj", []) for r in [_dict_read(s.value)] if r]
-            if not parts or not objs:
-                continue
-            dicts = {p[0] for p in parts} | {o[0] for o in objs}
-            keys = {p[1] for p in parts}
-            if len(dicts) != 1:
-                rep.violate("R1-callsites", construct, "objective and constraint values of %s are read from different evaluations: %s" % (sol, sorted(dicts)), where(f, st))
-            elif keys != {"G", "H"}:
-                rep.violate("R1-callsites", construct, "constraint violation of %s sums entries %s of the evaluation, not inequality 'G' and equality 'H'" % (sol, sorted(keys)),
-                            where(f, st))
-            elif {o[1] for o in objs} != {"F"}:
-                rep.violate("R1-callsites", construct, "objective vector of %s is read from %s, not 'F'" % (sol, sorted({o[1] for o in objs})), where(f, st))
-            else:
-                rep.ok("R1-callsites", construct, "%s: objective 'F', violation 'G'+'H' of one evaluation %s" % (sol, sorted(dicts)[0]))
+                    rep.violate("R1-callsites", construct, "%s takes the violation %s without the objective vector of the same solution in the same block" % (t, v), where(f, s))
+            elif v in allobj:
+                partner = [1 for s2, t2, v2 in cp if (v, v2) in pr.pairs]
+                if not partner:
+                    rep.violate("R1-callsites", "%s: %s" % (f.qualname, dump(s)[:60]), "%s takes the objective vector %s without the violation of the same solution in the same block" % (t, v),
+                                where(f, s))
 
 
 def _blocks(node):
@@ -366,22 +415,23 @@ def _blocks(node):
                 yield b
 
 
-def _same_block(root, a, b):
-    for blk in _blocks(root):
-        if a in blk and b in blk:
-            return True
-    return False
-
-
-def _check_archive_lockstep(prog, rep, f):
-    """parallel lists P, P_obj, P_cv are edited together"""
-    inits = [st.targets[0].id for st in walk_no_nested(f.node)
-             if isinstance(st, ast.Assign) and len(st.targets) == 1 and isinstance(st.targets[0], ast.Name)
-             and isinstance(st.value, ast.List) and not st.value.elts]
+def _check_archive_lockstep(prog, rep, f, pr):
+    """the parallel lists of an archive (decision, objective, violation) are edited together"""
+    empties = [st.targets[0].id for st in walk_no_nested(f.node)
+               if isinstance(st, ast.Assign) and len(st.targets) == 1 and isinstance(st.targets[0], ast.Name) and isinstance(st.value, ast.List) and not st.value.elts]
     fams = []
-    for p in inits:
-        fam = [p, p + "_obj", p + "_cv"]
-        if all(x in inits for x in fam):
+    for lo, lc in sorted(pr.lists):
+        # the third list of the family: appended in every block in which lo and lc are
+        third = None
+        for blk in _blocks(f.node):
+            apps = [s.value.func.value.id for s in blk if isinstance(s, ast.Expr) and isinstance(s.value, ast.Call) and isinstance(s.value.func, ast.Attribute)
+                    and s.value.func.attr in ("append", "insert") and isinstance(s.value.func.value, ast.Name)]
+            if lo in apps and lc in apps:
+                others = [a for a in apps if a not in (lo, lc) and a in empties]
+                if others:
+                    third = others[0]
+        fam = [x for x in (third, lo, lc) if x]
+        if fam not in fams:
             fams.append(fam)
     for fam in fams:
         for blk in _blocks(f.node):
@@ -396,14 +446,14 @@ def _check_archive_lockstep(prog, rep, f):
                     op = ("%s(%s)" % (st.value.func.attr, pos), st.value.func.value.id)
                 elif isinstance(st, ast.Assign) and len(st.targets) == 1 and isinstance(st.targets[0], ast.Name) and isinstance(st.value, ast.ListComp) \
                         and st.targets[0].id in fam:
-                    lc = st.value
-                    cond = " and ".join(dump(c) for g in lc.generators for c in g.ifs)
+                    lc_ = st.value
+                    cond = " and ".join(dump(c) for g in lc_.generators for c in g.ifs)
                     op = ("filter(%s)" % cond, st.targets[0].id)
                 if op and op[1] in fam:
                     ops.setdefault(op[0], []).append((op[1], st))
             for kind, lst in sorted(ops.items()):
                 names = [x[0] for x in lst]
-                construct = "%s: archive %s %s" % (f.qualname, fam[0], kind)
+                construct = "%s: archive %s %s" % (f.qualname, "/".join(fam), kind)
                 if sorted(names) == sorted(fam):
                     rep.ok("R1-callsites", construct, "all of %s edited together" % ", ".join(fam))
                 else:
